@@ -331,6 +331,8 @@ def trace_runs(ctx):
         go('AlZr/rk4/grain-boundaries', kwnruns.build_binary(x0=x0, T=T, site='grain boundaries', gbEnergy=0.15), [3600.0], 'rk4', 150)
         # populated from the first step: no precipitate diffusion (content integrated from increments) with RK4 and Vm ratio != 1
         go('AlZr/rk4/loaded/nodiff/vratio', kwnruns.build_loaded_binary(ctx.rng, infinite=False, vratio=ctx.rng.choice([0.9, 1.2])), [300.0, 300.0], 'rk4', 60)
+        go('NiCrAl/euler/2-solves', kwnruns.build_ternary(), [20.0, 60.0], 'euler', 120)
+        go('NiCrAl/rk4', kwnruns.build_ternary(), [30.0], 'rk4', 30)
         go('AlZr/euler/loaded/vratio/atoms16', kwnruns.build_loaded_binary(ctx.rng, vratio=ctx.rng.choice([0.9, 1.2]), atomsBeta=16), [600.0], 'euler', 200)
     else:
         go('AlZr/euler/dislocations/3-solves', kwnruns.build_binary(x0=x0, T=T), [3600 * 2, 3600 * 10, 3600 * 40], 'euler', None)
